@@ -60,7 +60,9 @@ def gen_spec(rng, nmax=14, asym=None):
 
     def mk_line(i, j, online=True):
         x = rng.uniform(0.02, 0.25)
-        ln = {'bus1': i, 'bus2': j, 'u': 1.0 if online else 0.0, 'x': x, 'r': x * rng.choice([0.0, 0.1, 0.3]) * rng.random(),
+        # (a small NEGATIVE resistance is valid data: star equivalents of three-winding transformers, reduced networks)
+        ln = {'bus1': i, 'bus2': j, 'u': 1.0 if online else 0.0, 'x': x,
+              'r': x * rng.choice([0.0, 0.1, 0.3, 0.3, -0.08]) * rng.random(),
               'b': rng.choice([0.0, rng.uniform(0, 0.03)]), 'g': rng.choice([0.0, 0.0, 0.0, 0.004]),
               'b1': 0.0, 'g1': 0.0, 'b2': 0.0, 'g2': 0.0,
               'tap': rng.choice([1.0, 1.0, round(rng.uniform(0.95, 1.05), 3)]),
@@ -466,6 +468,18 @@ def job(arg):
                 if normal and dmax > 1e-5:
                     out['oracle'].append(('solver-variant-changes-solution', '%s gives bus voltages differing by %.3g from NR/klu' % (tag, dmax)))
             solve(ss)
+            # the same System after reset(): the input data are the ones entered, so the solution is the first one
+            ss.reset()
+            okr = solve(ss)
+            cnt('reset-then-solve')
+            if not okr:
+                out['oracle'].append(('reset-then-solve-fails', 'after System.reset() the power flow of the same data does not converge'))
+            else:
+                sol = solution(ss)
+                dmax = max(max(abs(sol[str(bidx[k])][0] - base_sol[k][0]), abs(sol[str(bidx[k])][1] - base_sol[k][1])) for k in bidx)
+                if normal and dmax > 1e-6:
+                    out['oracle'].append(('reset-changes-solution', 'System.reset() followed by a second power flow gives bus voltages differing by '
+                                          '%.3g from the first solution of the same input data' % dmax))
         # metamorphic variant: insertion order, idx type, device base
         if conv and variant is not None:
             s2, bidx2 = build(spec, variant)
